@@ -72,8 +72,12 @@ func vAfterFailure(c *Client, conn *vConn) {
 	verifNote("open")
 	// usable: the next request starts with its own first byte and nothing of the failed query is sent later
 	n0 := len(conn.out)
-	conn.script = append(conn.script[:conn.rpos:conn.rpos], 4) // the server answers Pong
-	conn.cutAt, conn.gateAfter, conn.idles, conn.gates = -1, 0, 0, nil // a connection whose writes fail stays broken
+	// the server answers Pong - after whatever it had already sent and the client has not read;
+	// a stream that ended stays ended and a connection whose writes fail stays broken
+	if conn.cutAt < 0 {
+		conn.script = append(conn.script[:len(conn.script):len(conn.script)], 4)
+	}
+	conn.gateAfter, conn.idles, conn.gates = 0, 0, nil
 	perr := c.Ping(context.Background())
 	verifAssert(len(conn.out) > n0, "ping-writes")
 	if len(conn.out) > n0 {
@@ -110,6 +114,8 @@ func VerifC04Faults() {
 		e.uv(2)
 		e.srvException(verifI32("code"), "n", "m", "s", false)
 		conn.script, conn.gates = e.b, nil
+		// ... and possibly not even the whole of it
+		conn.cutAt = verifIntRange("excut", -1, len(e.b)-1)
 	case 4: // unknown packet code
 		var e rb
 		e.uv(uint64(verifIntRange("badcode", 15, 16)))
